@@ -109,7 +109,7 @@ fn cli_binding(ctx: &mut Ctx, p: &Prog) {
 
 pub fn run(ctx: &mut Ctx) {
     let menu = bc::const_menu();
-    let k = if ctx.quick() { 1 } else { 2 };
+    let k = 2;
     ctx.stage(&format!("U-BC constant sequences (k<={}) and their neighbours", k));
     let total = bc::count_sequences(k);
     for rank in 0..total {
@@ -120,7 +120,7 @@ pub fn run(ctx: &mut Ctx) {
     }
     ctx.stage("U-BC method bodies and their neighbours");
     for (i, p) in bc::method_programs().into_iter().enumerate() {
-        if ctx.quick() && i % 5 != 0 { continue } // quick: one arity/locals combination per body
+        
         if ctx.take().is_none() { continue }
         neighbourhood(ctx, "U-BC/method", &p);
     }
